@@ -54,6 +54,9 @@ mod task;
 
 mod io;
 
+#[cfg(feature = "verif")]
+pub mod verif;
+
 const MAX_COMMIT_CONCURRENCY: usize = 64;
 
 /// A full value stored within the trie.
